@@ -1,9 +1,8 @@
 #!/bin/sh
 # Build (full .vo, never -vos) the given targets, or everything when none is given.
-# Serialised with a lock so that concurrent checks do not trample each other.
 #   coq/mk.sh                       # whole development
 #   coq/mk.sh theories/Props/C17.vo # one target and what it depends on
+# Only the regeneration of _CoqProject/Makefile is serialised; builds run concurrently.
 cd "$(dirname "$0")"
-exec flock .build.lock sh -c '
-  ./gen_coqproject.sh || exit 2
-  if [ $# -eq 0 ]; then exec timeout 3000 make -j4; else exec timeout 3000 make -j4 "$@"; fi' mk "$@"
+flock .build.lock ./gen_coqproject.sh || exit 2
+if [ $# -eq 0 ]; then exec timeout 3000 make -j3; else exec timeout 1500 make -j3 "$@"; fi
